@@ -69,3 +69,4 @@ def _call(inp):
 
 CONTRACTS[Q + ":_evaluate"].gen = _gen
 CONTRACTS[Q + ":_evaluate"].call = _call
+CONTRACTS[Q + ":_evaluate"].props = "C09"
